@@ -185,6 +185,7 @@ func (d *badgerNodeDB) load() error {
 		return err
 	}
 
+	api.VerifCrashPoint()
 	return tx.CommitAt(tsMetadata, nil)
 }
 
@@ -267,6 +268,7 @@ func (d *badgerNodeDB) cleanMultipartLocked(removeNodes bool) error {
 
 	// Flush batch first. If anything fails, having corrupt
 	// multipart info in d.meta shouldn't hurt us next run.
+	api.VerifCrashPoint()
 	if err := batch.Flush(); err != nil {
 		return err
 	}
@@ -276,6 +278,7 @@ func (d *badgerNodeDB) cleanMultipartLocked(removeNodes bool) error {
 	if err := d.meta.setMultipartVersion(metaTx, 0); err != nil {
 		return err
 	}
+	api.VerifCrashPoint()
 	if err := metaTx.CommitAt(tsMetadata, nil); err != nil {
 		return err
 	}
@@ -703,6 +706,7 @@ func (d *badgerNodeDB) Finalize(roots []node.Root) error { // nolint: gocyclo
 	}
 
 	// Commit batch.
+	api.VerifCrashPoint()
 	if err := versionBatch.Flush(); err != nil {
 		return err
 	}
@@ -719,6 +723,7 @@ func (d *badgerNodeDB) Finalize(roots []node.Root) error { // nolint: gocyclo
 		return fmt.Errorf("mkvs/badger: failed to set last finalized version: %w", err)
 	}
 
+	api.VerifCrashPoint()
 	if err := tx.CommitAt(tsMetadata, nil); err != nil {
 		return fmt.Errorf("mkvs/badger: failed to commit metadata: %w", err)
 	}
@@ -831,6 +836,7 @@ func (d *badgerNodeDB) Prune(version uint64) error {
 	}
 
 	// Commit batch.
+	api.VerifCrashPoint()
 	if err := batch.Flush(); err != nil {
 		return fmt.Errorf("mkvs/badger: failed to flush batch: %w", err)
 	}
@@ -839,6 +845,7 @@ func (d *badgerNodeDB) Prune(version uint64) error {
 	if err := d.meta.setEarliestVersion(tx, version+1); err != nil {
 		return fmt.Errorf("mkvs/badger: failed to set earliest version: %w", err)
 	}
+	api.VerifCrashPoint()
 	if err := tx.CommitAt(tsMetadata, nil); err != nil {
 		return fmt.Errorf("mkvs/badger: failed to commit: %w", err)
 	}
@@ -871,6 +878,7 @@ func (d *badgerNodeDB) StartMultipartInsert(version uint64) error {
 	if err := d.meta.setMultipartVersion(tx, version); err != nil {
 		return err
 	}
+	api.VerifCrashPoint()
 	if err := tx.CommitAt(tsMetadata, nil); err != nil {
 		return err
 	}
@@ -1119,15 +1127,18 @@ func (ba *badgerBatch) Commit(root node.Root) error {
 
 	// Flush node updates.
 	if ba.multipartNodes != nil {
+		api.VerifCrashPoint()
 		if err = ba.multipartNodes.Flush(); err != nil {
 			return fmt.Errorf("mkvs/badger: failed to flush node log batch: %w", err)
 		}
 	}
+	api.VerifCrashPoint()
 	if err = ba.bat.Flush(); err != nil {
 		return fmt.Errorf("mkvs/badger: failed to flush batch: %w", err)
 	}
 
 	// Commit root metadata updates. This is done last, so in case we fail, we can still retry.
+	api.VerifCrashPoint()
 	if err = tx.CommitAt(tsMetadata, nil); err != nil {
 		return err
 	}
